@@ -1,6 +1,7 @@
 package main
 
 import (
+	"go/constant"
 	"go/token"
 	"go/types"
 	"strings"
@@ -117,6 +118,52 @@ func refineKind(c ssa.Value, want bool, subj any, s kindSet) kindSet {
 	if flip {
 		want = !want
 	}
+	// kindSet[v.Kind()] (map[reflect.Kind]bool) and `_, ok := kindSet[v.Kind()]`: membership in a package-level set
+	// written as a literal of kind constants, which nothing writes to after the package initialiser
+	{
+		var lk *ssa.Lookup
+		if l, ok := c.(*ssa.Lookup); ok && !l.CommaOk {
+			lk = l
+		}
+		if ex, ok := c.(*ssa.Extract); ok && ex.Index == 1 {
+			if l, ok := ex.Tuple.(*ssa.Lookup); ok && l.CommaOk {
+				lk = l
+			}
+		}
+		if lk != nil {
+			if sk, ok := kindCallSubject(lk.Index); ok && sk == subj && readOnlyGlobalMap(lk.X) {
+				if ks, ok := backingKindConsts(lk.X, 0); ok {
+					var m kindSet
+					for _, k := range ks {
+						m |= 1 << k
+					}
+					if want {
+						return s & m
+					}
+					return s &^ m
+				}
+			}
+			return s
+		}
+	}
+	// slices.Contains(tableOfKinds, v.Kind()) with a table backed by a literal of kind constants
+	if cl, isCall := c.(*ssa.Call); isCall {
+		if n := calleeName(&cl.Call); (strings.HasPrefix(n, "slices.Contains[") || n == "slices.Contains") && len(cl.Call.Args) == 2 {
+			if sk, ok := kindCallSubject(cl.Call.Args[1]); ok && sk == subj {
+				if ks, ok := backingKindConsts(cl.Call.Args[0], 0); ok {
+					var m kindSet
+					for _, k := range ks {
+						m |= 1 << k
+					}
+					if want {
+						return s & m
+					}
+					return s &^ m
+				}
+			}
+		}
+		return s
+	}
 	b, ok := c.(*ssa.BinOp)
 	if !ok {
 		return s
@@ -207,4 +254,121 @@ func kindFacts(fn *ssa.Function, subj any, entry kindSet) map[*ssa.BasicBlock]ki
 		}
 	}
 	return in
+}
+
+// backingKindConsts: the reflect.Kind constants of a slice literal (local, or a package-level variable initialised once).
+func backingKindConsts(base ssa.Value, depth int) ([]uint, bool) {
+	if depth > 4 {
+		return nil, false
+	}
+	collect := func(arr ssa.Value, fn *ssa.Function) ([]uint, bool) {
+		var out []uint
+		ok := true
+		eachInstr(fn, func(in ssa.Instruction) {
+			ia, isIA := in.(*ssa.IndexAddr)
+			if !isIA || ia.X != arr || ia.Referrers() == nil {
+				return
+			}
+			for _, u := range *ia.Referrers() {
+				st, isSt := u.(*ssa.Store)
+				if !isSt || st.Addr != ssa.Value(ia) {
+					continue
+				}
+				if k, isC := kindConst(st.Val); isC {
+					out = append(out, k)
+				} else {
+					ok = false
+				}
+			}
+		})
+		return out, ok && len(out) > 0
+	}
+	switch b := base.(type) {
+	case *ssa.Slice:
+		return backingKindConsts(b.X, depth+1)
+	case *ssa.Alloc:
+		return collect(b, b.Parent())
+	case *ssa.MakeMap:
+		// a set of kinds written as a map literal: map[reflect.Kind]bool{reflect.Int: true, …} / map[reflect.Kind]struct{}{…}
+		var out []uint
+		ok := true
+		if b.Referrers() != nil {
+			for _, r := range *b.Referrers() {
+				mu, isMU := r.(*ssa.MapUpdate)
+				if !isMU {
+					continue
+				}
+				k, isC := kindConst(mu.Key)
+				if !isC {
+					ok = false
+					continue
+				}
+				if bv, isB := mu.Value.(*ssa.Const); isB && bv.Value != nil && bv.Value.Kind() == constant.Bool && !constant.BoolVal(bv.Value) {
+					continue // an explicit false: not a member
+				}
+				out = append(out, k)
+			}
+		}
+		return out, ok && len(out) > 0
+	case *ssa.UnOp:
+		if b.Op != token.MUL {
+			return nil, false
+		}
+		g, ok := b.X.(*ssa.Global)
+		if !ok {
+			return nil, false
+		}
+		init := g.Pkg.Func("init")
+		if init == nil {
+			return nil, false
+		}
+		var val ssa.Value
+		n := 0
+		eachInstr(init, func(in ssa.Instruction) {
+			if st, ok := in.(*ssa.Store); ok && st.Addr == ssa.Value(g) {
+				val = st.Val
+				n++
+			}
+		})
+		if n != 1 {
+			return nil, false
+		}
+		return backingKindConsts(val, depth+1)
+	}
+	return nil, false
+}
+
+// readOnlyGlobalMap: v is a load of a package-level map variable that is assigned once (in the package
+// initialiser) and that no function of the module updates or deletes from.
+func readOnlyGlobalMap(v ssa.Value) bool {
+	ld, ok := v.(*ssa.UnOp)
+	if !ok || ld.Op != token.MUL {
+		return false
+	}
+	g, ok := ld.X.(*ssa.Global)
+	if !ok || theProg == nil {
+		return false
+	}
+	clean := true
+	for _, fn := range theProg.FuncsAndInits() {
+		eachInstr(fn, func(in ssa.Instruction) {
+			switch x := in.(type) {
+			case *ssa.Store:
+				if x.Addr == ssa.Value(g) && fn.Name() != "init" {
+					clean = false
+				}
+			case *ssa.MapUpdate:
+				if l, ok := x.Map.(*ssa.UnOp); ok && l.X == ssa.Value(g) {
+					clean = false
+				}
+			case ssa.CallInstruction:
+				if b, ok := x.Common().Value.(*ssa.Builtin); ok && (b.Name() == "delete" || b.Name() == "clear") && len(x.Common().Args) > 0 {
+					if l, ok := x.Common().Args[0].(*ssa.UnOp); ok && l.X == ssa.Value(g) {
+						clean = false
+					}
+				}
+			}
+		})
+	}
+	return clean
 }
